@@ -1,7 +1,9 @@
 //! Property checks and the shared finishing protocol (minimised replay, fresh-process
 //! confirmation, known findings).
 pub mod c03;
+pub mod c12;
 pub mod c13;
+pub mod c18;
 pub mod common;
 pub mod gcsearch;
 
@@ -19,20 +21,11 @@ pub struct PropertyDef {
 
 pub fn registry() -> Vec<PropertyDef> {
     vec![
-        PropertyDef {
-            id: "C03",
-            run: c03::run,
-            replay: c03::replay,
-            level: "exploration",
-        },
-        PropertyDef {
-        id: "C13",
-        run: c13::run,
-        replay: c13::replay,
-        level: "fault_enumeration",
-    }]
-    .into_iter()
-    .collect()
+        PropertyDef { id: "C03", run: c03::run, replay: c03::replay, level: "exploration" },
+        PropertyDef { id: "C12", run: c12::run, replay: c12::replay, level: "exploration" },
+        PropertyDef { id: "C18", run: c18::run, replay: c18::replay, level: "exploration" },
+        PropertyDef { id: "C13", run: c13::run, replay: c13::replay, level: "fault_enumeration" },
+    ]
 }
 
 pub fn find(id: &str) -> Option<PropertyDef> {
